@@ -18,7 +18,8 @@ pub struct P09 {
     pub dur: u64,
     pub amount: u128,
     /// 0 none, 1 one active, 2 two active same owner, 3 two owners, 4 three owners, 5 future-only, 6 expired-only, 7 active+expired,
-    /// 8 eleven active (two owners), 9 one farm claimed down to zero but still inside its epoch range
+    /// 8 eleven active (two owners), 9 one farm claimed down to zero but still inside its epoch range, 10 one active farm whose
+    /// owner has been made the fee collector, 11 / 12 two farms with one end epoch, one of them exhausted (sorting first / last)
     pub farms: u8,
 }
 
@@ -42,7 +43,7 @@ fn build_base(w: &mut World, farms: u8) {
         assert!(o.is_ok(), "MACHINERY: farm {id}: {}", o.err_text());
     };
     match farms {
-        1 => mk(w, C, 1, 60, "a1"),
+        1 | 10 => mk(w, C, 1, 60, "a1"),
         2 => {
             mk(w, C, 1, 60, "a1");
             mk(w, C, 2, 70, "a2");
@@ -73,6 +74,28 @@ fn build_base(w: &mut World, farms: u8) {
     w.advance(40 * DAY);
     if farms == 5 {
         mk(w, C, 45, 47, "f1");
+    }
+    if farms == 10 {
+        // the owner re-points the farm manager's fee collector to the account that owns the (only) active farm
+        let o = apply(w, &FuOp::SetCfg { u: OWNER, field: "fee_collector".into(), val: C as u64 });
+        assert!(o.is_ok(), "MACHINERY: re-point fee collector {}", o.err_text());
+    }
+    if farms == 11 || farms == 12 {
+        // two farms of different owners with the same end epoch; the only staker claims at that epoch: one of them is claimed
+        // down to zero (expired by exhaustion), the other keeps one unit of rounding dust and stays active. 11: the exhausted one
+        // sorts first, 12: last
+        let (ex, live) = if farms == 11 { ("x1", "x2") } else { ("x2", "x1") };
+        let o = apply(w, &farm_op(&fee, C, 0, Some(41), Some(43), ("uusdc", 2000), Some(ex)));
+        assert!(o.is_ok(), "MACHINERY: farm {ex}: {}", o.err_text());
+        let o = apply(w, &farm_op(&fee, OWNER, 0, Some(41), Some(43), ("uusdc", 2003), Some(live)));
+        assert!(o.is_ok(), "MACHINERY: farm {live}: {}", o.err_text());
+        w.advance(3 * DAY);
+        let o = apply(w, &FuOp::Claim { u: B, until: None });
+        assert!(o.is_ok(), "MACHINERY: claim {}", o.err_text());
+        let fs = observe_light(w).farms;
+        let fe = fs.iter().find(|f| f.identifier.ends_with(ex)).expect("MACHINERY: farm");
+        let fl = fs.iter().find(|f| f.identifier.ends_with(live)).expect("MACHINERY: farm");
+        assert!(fe.claimed_amount == fe.farm_asset.amount && fl.claimed_amount < fl.farm_asset.amount, "MACHINERY: farm sets 11/12: {:?} {:?}", fe, fl);
     }
     if farms == 9 {
         // a farm emitting in epochs 41 and 42; at epoch 43 (still its end epoch) the only staker so far claims everything: the farm has nothing left (expired by exhaustion) inside its own epoch range
@@ -166,7 +189,8 @@ fn eval09(w: &mut World, p: &P09, rec: &mut Rec) -> bool {
         if post.positions.iter().any(|x| x.identifier == "u-x") {
             why.push("position still recorded".into());
         }
-        // who received what
+        // who received what (the fee collector is whoever the farm manager's configuration names)
+        let fc = pre.cfg.as_ref().and_then(|c| acc_index(w, &c.fee_collector_addr)).unwrap_or(FC);
         let actives = active_owners(w, &pre, &lp);
         let mut paid_out: i128 = 0;
         for acc in 0..N_ACC {
@@ -179,7 +203,7 @@ fn eval09(w: &mut World, p: &P09, rec: &mut Rec) -> bool {
             }
             if x > 0 {
                 paid_out += x;
-                if acc != FC && !actives.contains(&acc) {
+                if acc != fc && !actives.contains(&acc) {
                     why.push(format!("account #{acc} received {x} of the penalty but owns no active farm on this LP (active owners {:?})", actives));
                 }
             }
@@ -201,8 +225,8 @@ fn eval09(w: &mut World, p: &P09, rec: &mut Rec) -> bool {
         if out_fm != got + paid_out {
             why.push(format!("farm manager released {out_fm}, receipts sum to {}", got + paid_out));
         }
-        if actives.is_empty() && d(FC) != pen {
-            why.push(format!("no active farm: fee collector got {} of penalty {pen}", d(FC)));
+        if actives.is_empty() && d(fc) != pen {
+            why.push(format!("no active farm: fee collector got {} of penalty {pen}", d(fc)));
         }
         // exact value: amount * min(0.9, base * remaining/duration * weight/amount)
         let rem = match el {
@@ -254,7 +278,7 @@ pub fn points09(tier: Tier) -> Vec<P09> {
     for b in &bases {
         for d in &durs {
             for a in &amounts {
-                for f in 0u8..10 {
+                for f in 0u8..13 {
                     v.push(P09 { base_pct: *b, dur: *d, amount: *a, farms: f });
                 }
             }
